@@ -221,3 +221,86 @@ func c07OffsetHandover(p *Prog) *RuleResult {
 	r.Floor(2)
 	return r
 }
+
+// C07/R7 the stripped first mapping is rebased field by field.
+//
+// AppendSourceMapChunk joins the mappings of one file onto those of the previous file. Mappings
+// are delta encoded, so it strips the chunk's first mapping, decodes its four fields (generated
+// column, source index, original line, original column) and re-encodes them relative to the end
+// state of the previous chunk by adding each decoded delta to the matching field of startState.
+// A chunk's first mapping can carry a non-zero source index (a file with an input source map of
+// several sources), so no field may be dropped: a dropped delta shifts that file's and every
+// later file's mappings to the wrong source / line / column.
+// Rule: every DecodeVLQ value decoded in AppendSourceMapChunk is used, and each of the four
+// position fields of startState is updated with a value that derives from a decoded delta.
+func c07FirstMappingRebase(p *Prog) *RuleResult {
+	r := NewRule("C07/R7 first-mapping-rebase", "AppendSourceMapChunk adds every decoded field of a chunk's first mapping (generated column, source index, original line, original column) to the matching field of the start state; no decoded delta is discarded")
+	fn := p.FindFunc("sourcemap.AppendSourceMapChunk")
+	if !r.Anchor("sourcemap.AppendSourceMapChunk", fn != nil) {
+		return r
+	}
+	decoded := map[ssa.Value]bool{}
+	nDecode := 0
+	eachInstr(fn, func(b *ssa.BasicBlock, in ssa.Instruction) {
+		c, ok := in.(*ssa.Call)
+		if !ok || FuncNameOf(c) != "sourcemap.DecodeVLQ" {
+			return
+		}
+		nDecode++
+		r.Instances++
+		key := fmt.Sprintf("AppendSourceMapChunk DecodeVLQ #%d value used", nDecode)
+		used := false
+		if c.Referrers() != nil {
+			for _, rf := range *c.Referrers() {
+				if ex, ok := rf.(*ssa.Extract); ok && ex.Index == 0 {
+					decoded[ex] = true
+					if ex.Referrers() != nil && len(*ex.Referrers()) > 0 {
+						used = true
+					}
+				}
+			}
+		}
+		if used {
+			r.OK(key, true, "the decoded value is used")
+		} else {
+			r.Fail(key, p.Pos(c.Pos()), "a field of the chunk's first mapping is decoded and thrown away: the re-encoded mapping, and every later mapping of the chunk and of the files after it, is off by that delta (for the source index: mappings name the wrong source file)")
+		}
+	})
+	if !r.Anchor("DecodeVLQ calls in AppendSourceMapChunk", nDecode >= 4) {
+		return r
+	}
+	updated := map[string]bool{}
+	eachInstr(fn, func(b *ssa.BasicBlock, in ssa.Instruction) {
+		st, ok := in.(*ssa.Store)
+		if !ok {
+			return
+		}
+		fa, ok := st.Addr.(*ssa.FieldAddr)
+		if !ok || namedTypeName(fa.X.Type()) != "sourcemap.SourceMapState" {
+			return
+		}
+		backSlice(st.Val, func(v ssa.Value) bool {
+			if decoded[v] {
+				updated[fieldAddrName(fa)] = true
+			}
+			if ph, ok := v.(*ssa.Phi); ok {
+				for _, e := range ph.Edges {
+					if decoded[e] {
+						updated[fieldAddrName(fa)] = true
+					}
+				}
+			}
+			return true
+		})
+	})
+	for _, f := range []string{"GeneratedColumn", "SourceIndex", "OriginalLine", "OriginalColumn"} {
+		r.Instances++
+		key := "AppendSourceMapChunk rebases startState." + f
+		if updated[f] {
+			r.OK(key, true, "updated with a decoded delta of the first mapping")
+		} else {
+			r.Fail(key, p.Pos(fn.Pos()), "startState."+f+" is not updated with the decoded "+f+" delta of the chunk's first mapping")
+		}
+	}
+	return r
+}
